@@ -326,6 +326,18 @@ CHECKS += [
          technique="lifted execution of qp.math tensor manipulations on z3 complex-polynomial terms; z3 QF_NRA equality proofs"),
 ]
 
+CHECKS += [
+    dict(property_id="C21", category="other", engine=E1,
+         text="Partial (analytic mode): 8 dynamic circuits with SYMBOLIC gate angles (1-2 mid-circuit measurements with reset, postselection, cond with else-branch, "
+              "&, +, ==, ~, ^ arithmetic on measurement values, a wire measured twice) x 5 measurement lists (observables, MCM statistics, joint MCM probabilities, "
+              "MCM arithmetic, variances) are evaluated by the REAL defer_measurements transform + lifted default.qubit and by the REAL tree-traversal simulator "
+              "(simulate_tree_mcm; its pruning comparisons fork on the symbolic branch probabilities). z3 proves for ALL angles that every result times the total branch "
+              "weight equals the exact branch sum of the vf.dynsim oracle (explicit projection per outcome assignment).",
+         note=PROOF_NOTE + " Category 'other': the statistical part of the property (one-shot / tree-traversal sampling with shots, hw-like vs fill-shots postselection) is outside "
+              "solver-based checking; paths with zero postselection probability are excluded (results are nan by design).",
+         technique="lifted execution of defer_measurements / default.qubit / tree-traversal on z3 circle-polynomial terms with solver-decided pruning branches; z3 QF_NRA equality proofs against a branch-enumeration oracle"),
+]
+
 _NOT_BUILT = "claimed in DESIGN.md §4 but its solver-based check is not built yet in this tree"
 NOT_APPLICABLE_REASONS = {
     "C04": "equality/hash: Python hash() of concrete payloads and tolerance-based allclose relations; no exact relation a solver can decide",
